@@ -59,7 +59,7 @@ def ticks(text):
 def lex_seconds(text, limit=25):
     """CPU time of lexing text with the implementation, in a killable subprocess (CPU time: robust against machine load)"""
     import subprocess, sys
-    env = dict(os.environ, PYTHONPATH="/repo", PYTHONHASHSEED="0")
+    env = dict(os.environ, PYTHONPATH=REPO, PYTHONHASHSEED="0")
     try:
         p = subprocess.run([sys.executable, os.path.join(os.path.dirname(os.path.dirname(os.path.abspath(__file__))), "lextime.py")],
                            input=text, capture_output=True, text=True, timeout=limit, env=env)
